@@ -78,6 +78,7 @@ var c06 = gen.Register(&gen.Check[caseC06]{
 	},
 	Required: []string{"mont-operand", "alias", "nil", "wrap:add", "wrap:sub", "op:invert", "op:pow"},
 	Run: func(c caseC06, o *gen.Obs) error {
+		hostileCaller()
 		s, t := c.S.Build(), c.T.Build()
 		vs, vt := c.S.Value(), c.T.Value()
 		arg, varg := t, vt
